@@ -37,6 +37,11 @@
 #include <kernel/lafem/dense_vector.hpp>
 #include <kernel/lafem/sparse_matrix_csr.hpp>
 #include <kernel/lafem/transfer.hpp>
+#include <kernel/lafem/vector_mirror.hpp>
+#include <kernel/global/gate.hpp>
+#include <kernel/global/muxer.hpp>
+#include <kernel/global/vector.hpp>
+#include <kernel/global/transfer.hpp>
 #include <algorithm>
 #include <cmath>
 #include <memory>
@@ -64,12 +69,13 @@ namespace
     Index m = 0, n = 0;
     std::vector<Index> rp, ci;
     std::vector<double> va;
-    explicit Csr(const MatrixType& a) : m(a.rows()), n(a.columns()), rp(size_t(a.rows()) + 1, Index(0))
+    template<typename DT_, typename IT_>
+    explicit Csr(const LAFEM::SparseMatrixCSR<DT_, IT_>& a) : m(a.rows()), n(a.columns()), rp(size_t(a.rows()) + 1, Index(0))
     {
       if(a.used_elements() == 0) return;
-      rp.assign(a.row_ptr(), a.row_ptr() + m + 1);
-      ci.assign(a.col_ind(), a.col_ind() + a.used_elements());
-      va.assign(a.val(), a.val() + a.used_elements());
+      for(Index i = 0; i <= m; ++i) rp[size_t(i)] = Index(a.row_ptr()[i]);
+      ci.resize(size_t(a.used_elements())); va.resize(size_t(a.used_elements()));
+      for(Index k = 0; k < a.used_elements(); ++k) { ci[size_t(k)] = Index(a.col_ind()[k]); va[size_t(k)] = double(a.val()[k]); }
     }
     double operator()(Index i, Index j) const { double s = 0.0; for(Index k = rp[i]; k < rp[i + 1]; ++k) if(ci[k] == j) s += va[k]; return s; }
     bool stored(Index i, Index j) const { for(Index k = rp[i]; k < rp[i + 1]; ++k) if(ci[k] == j) return true; return false; }
@@ -86,6 +92,74 @@ namespace
       for(Index i = 0; i < m; ++i) for(Index k = rp[i]; k < rp[i + 1]; ++k) { const double t = va[k] * x[size_t(i)]; y[size_t(ci[k])] += t; ya[size_t(ci[k])] += std::fabs(t); }
     }
   };
+
+  // ------------------------------------------------------------------------------------------ identities of a (derived) transfer object
+  /// Checks that an object derived from the assembled transfer (clone / convert / move / global wrapper) still carries the
+  /// matrices P, P^T, T (entry-wise, after the narrowing cast to its data type) and applies exactly them.
+  /// fp(fine, coarse) = prol, fr(fine, coarse) = rest, ft(fine, coarse) = trunc on local vectors of the object's types.
+  template<typename MT_, typename FP_, typename FR_, typename FT_>
+  void check_derived(verif::Ctx& c, const std::string& key, const std::string& oname, const MT_& mp, const MT_& mr, const MT_& mt,
+    FP_&& fp, FR_&& fr, FT_&& ft, const Csr& P, const Csr& R, const Csr& T, bool have_values)
+  {
+    typedef typename MT_::DataType DT;
+    typedef typename MT_::IndexType IT;
+    typedef LAFEM::DenseVector<DT, IT> VT;
+    const Index nf = P.m, nc = P.n;
+    auto same = [&](const MT_& x, const Csr& S) {
+      if(x.rows() != S.m || x.columns() != S.n || size_t(x.used_elements()) != S.nnz()) return false;
+      const Csr X(x);
+      if(X.rp != S.rp || X.ci != S.ci) return false;
+      if(have_values) for(size_t k = 0; k < S.va.size(); ++k) if(!(X.va[k] == double(DT(S.va[k])))) return false;
+      return true; };
+    c.check(same(mp, P), "derived transfer object: prolongation matrix differs from the source; " + oname + "; " + key, "mat_prol: dimensions, layout or an entry differ");
+    c.check(same(mr, R), "derived transfer object: restriction matrix differs from the source; " + oname + "; " + key, "mat_rest: dimensions, layout or an entry differ");
+    c.check(same(mt, T), "derived transfer object: truncation matrix differs from the source; " + oname + "; " + key, "mat_trunc: dimensions, layout or an entry differ");
+    c.count("derived_transfer_objects");
+    if(!have_values) return;
+    const double eps = double(Math::eps<DT>());
+    std::vector<double> xc((size_t(nc)), 0.0), xd((size_t(nf)), 0.0), y, ya;
+    VT vc(nc), vf(nf), dual(nf), rc(nc), tc(nc);
+    for(Index j = 0; j < nc; ++j) { xc[size_t(j)] = double(int((j * 5u + 3u) % 11u) - 5) / 4.0; vc(j, DT(xc[size_t(j)])); }
+    for(Index i = 0; i < nf; ++i) { xd[size_t(i)] = double(int((i * 7u + 1u) % 13u) - 6) / 8.0; dual(i, DT(xd[size_t(i)])); }
+    vf.format(DT(77)); rc.format(DT(77)); tc.format(DT(77));
+    fp(vf, vc); fr(dual, rc); ft(vf, tc);
+    double wp = 0.0, wr = 0.0, wt = 0.0, wtp = 0.0;
+    P.apply(y, ya, xc);
+    for(Index i = 0; i < nf; ++i) { const double e = std::fabs(double(vf(i)) - y[size_t(i)]) / (ya[size_t(i)] + 1e-300); if(!(e <= wp)) wp = e; }
+    std::vector<double> xf((size_t(nf)), 0.0); for(Index i = 0; i < nf; ++i) xf[size_t(i)] = double(vf(i));
+    P.apply_t(y, ya, xd);
+    for(Index j = 0; j < nc; ++j) { const double e = std::fabs(double(rc(j)) - y[size_t(j)]) / (ya[size_t(j)] + 1e-300); if(!(e <= wr)) wr = e; }
+    T.apply(y, ya, xf);
+    for(Index j = 0; j < nc; ++j) { const double e = std::fabs(double(tc(j)) - y[size_t(j)]) / (ya[size_t(j)] + 1e-300); if(!(e <= wt)) wt = e; }
+    for(Index j = 0; j < nc; ++j) { const double e = std::fabs(double(tc(j)) - xc[size_t(j)]); if(!(e <= wtp)) wtp = e; }
+    const double tol = 64.0 * eps, tolid = std::max(1e-10, 2048.0 * eps);
+    c.check(wp <= tol, "derived transfer object: prol differs from P*v; " + oname + "; " + key, [&]{ char b[100]; snprintf(b, sizeof b, "relative difference %.3e", wp); return std::string(b); });
+    c.check(wr <= tol, "derived transfer object: rest differs from P^T*v; " + oname + "; " + key, [&]{ char b[100]; snprintf(b, sizeof b, "relative difference %.3e", wr); return std::string(b); });
+    c.check(wt <= tol, "derived transfer object: trunc differs from T*v; " + oname + "; " + key, [&]{ char b[100]; snprintf(b, sizeof b, "relative difference %.3e", wt); return std::string(b); });
+    c.check(wtp <= tolid, "derived transfer object: trunc(prol(x)) != x; " + oname + "; " + key, [&]{ char b[100]; snprintf(b, sizeof b, "max difference %.3e", wtp); return std::string(b); });
+  }
+
+  template<typename TR_>
+  void check_local(verif::Ctx& c, const std::string& key, const std::string& oname, const TR_& x, const Csr& P, const Csr& R, const Csr& T, bool have_values = true)
+  {
+    typedef typename TR_::VectorType VT;
+    c.check(!x.is_ghost(), "derived transfer object: is_ghost; " + oname + "; " + key, "local transfer claims to be a ghost operator");
+    check_derived(c, key, oname, x.get_mat_prol(), x.get_mat_rest(), x.get_mat_trunc(),
+      [&](VT& f, const VT& cc) { x.prol(f, cc); }, [&](const VT& f, VT& cc) { x.rest(f, cc); }, [&](const VT& f, VT& cc) { x.trunc(f, cc); }, P, R, T, have_values);
+  }
+
+  template<typename GT_>
+  void check_global(verif::Ctx& c, const std::string& key, const std::string& oname, const GT_& x, const Csr& P, const Csr& R, const Csr& T, bool have_values = true)
+  {
+    typedef typename GT_::VectorType GV;
+    typedef typename GT_::LocalVectorType VT;
+    c.check(!x.is_ghost(), "derived transfer object: is_ghost; " + oname + "; " + key, "serial global transfer claims to be a ghost operator");
+    const auto& l = x._transfer;
+    check_derived(c, key, oname, l.get_mat_prol(), l.get_mat_rest(), l.get_mat_trunc(),
+      [&](VT& f, const VT& cc) { GV gf(nullptr, f.clone(LAFEM::CloneMode::Shallow)), gc(nullptr, cc.clone(LAFEM::CloneMode::Shallow)); x.prol(gf, gc); },
+      [&](const VT& f, VT& cc) { GV gf(nullptr, f.clone(LAFEM::CloneMode::Shallow)), gc(nullptr, cc.clone(LAFEM::CloneMode::Shallow)); x.rest(gf, gc); },
+      [&](const VT& f, VT& cc) { GV gf(nullptr, f.clone(LAFEM::CloneMode::Shallow)), gc(nullptr, cc.clone(LAFEM::CloneMode::Shallow)); x.trunc(gf, gc); }, P, R, T, have_values);
+  }
 
   // ------------------------------------------------------------------------------------------ reference cell helpers
   template<typename Shape_> struct RefCell;
@@ -629,6 +703,80 @@ namespace
         double wtp = 0.0; for(Index j = 0; j < nc; ++j) wtp = std::max(wtp, std::fabs(vc3(j) - vc(j)));
         c.check(wtp <= 1e-10, "LAFEM::Transfer trunc(prol(v)) != v; " + key, [&]{ char b[100]; snprintf(b, sizeof b, "max difference %.3e", wtp); return std::string(b); });
       }
+      // ---- (f) every copying / conversion entry point of LAFEM::Transfer and of its serial Global::Transfer wrapper:
+      // the derived object must carry and apply the same three matrices; the source must stay unchanged
+      {
+        typedef LAFEM::Transfer<MatrixType> TrD;
+        typedef LAFEM::Transfer<LAFEM::SparseMatrixCSR<float, unsigned int>> TrF;
+        typedef LAFEM::Transfer<LAFEM::SparseMatrixCSR<double, unsigned int>> TrDU;
+        typedef LAFEM::Transfer<LAFEM::SparseMatrixCSR<float, Index>> TrFL;
+        TrD src(prol.clone(), rest.clone(), trunc.clone());
+        check_local(c, key, "source", src, P, R, T);
+        // clone in every mode
+        { TrD x = src.clone(LAFEM::CloneMode::Shallow); check_local(c, key, "clone(Shallow)", x, P, R, T); }
+        { TrD x = src.clone(LAFEM::CloneMode::Weak); check_local(c, key, "clone(Weak)", x, P, R, T); }
+        { TrD x = src.clone(LAFEM::CloneMode::Deep); check_local(c, key, "clone(Deep)", x, P, R, T); }
+        { TrD x = src.clone(); check_local(c, key, "clone()", x, P, R, T); }
+        { TrD x = src.clone(LAFEM::CloneMode::Layout); check_local(c, key, "clone(Layout)", x, P, R, T, false); }
+        { TrD x = src.clone(LAFEM::CloneMode::Allocate); check_local(c, key, "clone(Allocate)", x, P, R, T, false); }
+        // convert to other data/index types, chains, and back
+        {
+          TrF xf; xf.convert(src); check_local(c, key, "convert(float,u32)", xf, P, R, T);
+          TrD back; back.convert(xf);
+          {
+            // the round trip carries the float-rounded entries exactly
+            auto rnd = [](Csr a) { for(double& v : a.va) v = double(float(v)); return a; };
+            const Csr Pf = rnd(P), Rf = rnd(R), Tf = rnd(T);
+            const Csr bp(back.get_mat_prol()), br(back.get_mat_rest()), bt(back.get_mat_trunc());
+            c.check(bp.rp == Pf.rp && bp.ci == Pf.ci && bp.va == Pf.va, "derived transfer object: prolongation matrix differs from the source; convert(float,u32)->convert(double,u64); " + key, "round trip does not carry float(P)");
+            c.check(br.rp == Rf.rp && br.ci == Rf.ci && br.va == Rf.va, "derived transfer object: restriction matrix differs from the source; convert(float,u32)->convert(double,u64); " + key, "round trip does not carry float(P^T)");
+            c.check(bt.rp == Tf.rp && bt.ci == Tf.ci && bt.va == Tf.va, "derived transfer object: truncation matrix differs from the source; convert(float,u32)->convert(double,u64); " + key, "round trip does not carry float(T)");
+            // and applies them (float accuracy with respect to the exact matrices)
+            typedef TrD::VectorType VT;
+            VT vc(nc), vf(nf), tc(nc);
+            for(Index j = 0; j < nc; ++j) vc(j, double(int((j * 5u + 3u) % 11u) - 5) / 4.0);
+            back.prol(vf, vc); back.trunc(vf, tc);
+            double w = 0.0; for(Index j = 0; j < nc; ++j) { const double e = std::fabs(tc(j) - vc(j)); if(!(e <= w)) w = e; }
+            c.check(w <= 1e-4, "derived transfer object: trunc(prol(x)) != x; convert(float,u32)->convert(double,u64); " + key, [&]{ char b[100]; snprintf(b, sizeof b, "max difference %.3e", w); return std::string(b); });
+            c.count("derived_transfer_objects");
+          }
+          TrDU xdu; xdu.convert(src); check_local(c, key, "convert(double,u32)", xdu, P, R, T);
+          TrFL xfl; xfl.convert(xdu); check_local(c, key, "convert(double,u32)->convert(float,u64)", xfl, P, R, T);
+          TrD same; same.convert(src); check_local(c, key, "convert(double,u64)", same, P, R, T);
+          TrD back2; back2.convert(xdu); check_local(c, key, "convert(double,u32)->convert(double,u64)", back2, P, R, T);
+          same.convert(same); check_local(c, key, "convert(self)", same, P, R, T);
+        }
+        // move construction / assignment
+        {
+          TrD a = src.clone(LAFEM::CloneMode::Deep);
+          TrD b(std::move(a)); check_local(c, key, "move construction", b, P, R, T);
+          TrD d; d = std::move(b); check_local(c, key, "move assignment", d, P, R, T);
+          TrD e2(prol.clone(), rest.clone()); // two-matrix constructor: no truncation
+          e2 = std::move(d); check_local(c, key, "move assignment over an existing object", e2, P, R, T);
+          TrD& self = e2; e2 = std::move(self); check_local(c, key, "self move assignment", e2, P, R, T);
+        }
+        // serial Global::Transfer wrapper (no muxer, no gate)
+        {
+          typedef LAFEM::VectorMirror<double, Index> MirD;
+          typedef LAFEM::VectorMirror<float, unsigned int> MirF;
+          typedef Global::Transfer<TrD, MirD> GTD;
+          typedef Global::Transfer<TrF, MirF> GTF;
+          GTD g(nullptr, prol.clone(), rest.clone(), trunc.clone());
+          check_global(c, key, "Global::Transfer", g, P, R, T);
+          { GTD x = g.clone(LAFEM::CloneMode::Deep); check_global(c, key, "Global::Transfer::clone(Deep)", x, P, R, T); }
+          { GTD x = g.clone(); check_global(c, key, "Global::Transfer::clone()", x, P, R, T); }
+          { GTD x = g.clone(LAFEM::CloneMode::Shallow); check_global(c, key, "Global::Transfer::clone(Shallow)", x, P, R, T); }
+          GTF gf; gf.convert(nullptr, g); check_global(c, key, "Global::Transfer::convert(float,u32)", gf, P, R, T);
+          GTD gb; gb.convert(nullptr, g); check_global(c, key, "Global::Transfer::convert(double,u64)", gb, P, R, T);
+          GTD gm(std::move(gb)); check_global(c, key, "Global::Transfer move construction", gm, P, R, T);
+          GTD ga; ga = std::move(gm); check_global(c, key, "Global::Transfer move assignment", ga, P, R, T);
+          check_global(c, key, "Global::Transfer (after deriving objects)", g, P, R, T);
+        }
+        // the source is unchanged
+        check_local(c, key, "source (after deriving objects)", src, P, R, T);
+        const Csr P2(prol), R2(rest), T2(trunc);
+        c.check(P2.rp == P.rp && P2.ci == P.ci && P2.va == P.va && R2.va == R.va && R2.ci == R.ci && T2.va == T.va && T2.ci == T.ci, "assembled matrices changed by deriving transfer objects; " + key, "prol/rest/trunc matrix modified");
+      }
       c.count("matrix_entries_checked", uint64_t(P.nnz() + Pb.nnz() + Ps.nnz() + T.nnz() + R.nnz()));
       c.outcome(worst < 1e-14 ? "err<1e-14" : worst < 1e-13 ? "err<1e-13" : worst < 1e-12 ? "err<1e-12" : worst <= 2e-11 ? "err<2e-11" : "inexact");
     }
@@ -710,7 +858,7 @@ int main(int argc, char** argv)
   verif::Spec spec; spec.property = "C18"; spec.harness = "c18_transfer";
   spec.rule = "case = (element, coarse mesh source incl. all test_aux orientations, distortion, refinement depth of the pair, permutation strategy, which "
     "of the two meshes is permuted); per case all columns of P are checked on a (k+2)-lattice of every fine cell against the coarse basis "
-    "functions at the geometrically inverse-mapped points; T*P=I, R=P^T bitwise, matrix-free = matrix, LAFEM::Transfer = matrices. Every "
+    "functions at the geometrically inverse-mapped points; T*P=I, R=P^T bitwise, matrix-free = matrix, LAFEM::Transfer = matrices, and the same identities on every object derived from it (clone in all 5 modes, convert to (float,u32)/(double,u32)/(float,u64)/(double,u64) incl. chains and round trip, move construction/assignment, serial Global::Transfer wrapper with its clone/convert/move). Every "
     "executed case is non-trivial (>= 2 fine cells), hashed by its key";
   spec.bounds_quick = "1D/quad/tria/hexa/tetra meshes: single cells in all test_aux orientations, tetris/patch/big meshes, unit cubes, and two-cell meshes whose "
     "local vertex numberings run through the full symmetry group of the cell ((id,g) and (g,id); |G| = 2/8/6/48/24); level pairs (M,RM) and (RM,RRM) "
@@ -722,7 +870,7 @@ int main(int argc, char** argv)
     "FEAT space evaluators and dof mappings are used to evaluate basis functions (checked by C15); the trafo is inverted by an own Newton iteration",
     "meshes are permuted after refinement (the convention GridTransfer's 2-level lookup is written for)",
     "matrix-free prolongation is called for all coarse unit vectors where #coarse dofs * #fine cells * (local dofs)^3/64 <= 4096 (quick) / 16384 (thorough), else for an evenly spaced sub-family (>= 6, incl. first and last), plus zero, dense and coarse-cell supported vectors (first/middle/last coarse cell; all cells of meshes with <= 8 cells in the thorough tier)", "tolerances: exactness 2e-11 absolute on O(1) basis values (local mass matrix inversion), T*P=I 2e-10, matrix-free vs matrix 1e-12 relative, Transfer vs dense product 64 eps relative; transpose is compared bitwise",
-    "Global::Transfer / Muxer (MPI) is outside this harness (C13)",
+    "Global::Transfer is exercised only serially (no muxer, no gate: clone/convert/move and prol/rest/trunc forwarding); muxed/ghost operation needs MPI (C13)", "LAFEM::Transfer applies no filters (none to check); clone(Layout)/clone(Allocate) have undefined values by contract: only dimensions and layout are compared",
     "non-nested spaces (Crouzeix-Raviart, Rannacher-Turek, P2-bubble, parametric discontinuous P1 on non-parallelograms) are excluded"};
 
   static const ElemDesc L1 = {"Lagrange1", 1, false}, L2 = {"Lagrange2", 2, false}, L3 = {"Lagrange3", 3, false},
